@@ -134,7 +134,7 @@ def render(lang, name, body):
 
 def wrap(lang, methods):
     if lang == "java":
-        return "class M {\n    static void out(int k) {}\n" + "\n".join(methods) + "}\n"
+        return "class M {\n    static void out(int k) {}\n    static void out(String k) {}\n" + "\n".join(methods) + "}\n"
     if lang == "php":
         return "<?php\n" + "\n".join(methods)
     if lang == "c":
@@ -146,9 +146,88 @@ def wrap(lang, methods):
 
 INPUTS = [(x, y) for x in (0, 1, 2) for y in (0, 1, 2)]
 
+# hand-written "rich" programs: strings (incl. augmented concatenation), nested records, arrays, argument order
+RICH = {
+    "strings": {
+        "python": "def rich_strings(x, y):\n    s = \"a\"\n    s = s + \"b\"\n    s += \"c\"\n    t = s + s\n    out(t)\n    out(s)\n    return x\n",
+        "javascript": "function rich_strings(x, y) {\n    var s = \"a\";\n    s = s + \"b\";\n    s += \"c\";\n    var t = s + s;\n    out(t);\n    out(s);\n    return x;\n}\n",
+        "php": "function rich_strings($x, $y) {\n    $s = \"a\";\n    $s = $s . \"b\";\n    $s .= \"c\";\n    $t = $s . $s;\n    out($t);\n    out($s);\n    return $x;\n}\n",
+        "java": "    static int rich_strings(int x, int y) {\n        String s = \"a\";\n        s = s + \"b\";\n        s += \"c\";\n        String t = s + s;\n        out(t);\n        out(s);\n        return x;\n    }\n",
+    },
+    "records": {
+        "python": "class O:\n    pass\ndef rich_records(x, y):\n    o = O()\n    o.inner = O()\n    o.inner.x = 1\n    o.count = 0\n    o.inner.x = x\n    o.count = o.count + 1\n    o.inner.x += y\n    p = o.inner\n    p.z = 5\n    return o.inner.x * 100 + o.count * 10 + o.inner.z\n",
+        "javascript": "function rich_records(x, y) {\n    var o = { inner: { x: 1 }, count: 0 };\n    o.inner.x = x;\n    o.count = o.count + 1;\n    o.inner.x += y;\n    var p = o.inner;\n    p.z = 5;\n    return o.inner.x * 100 + o.count * 10 + o.inner.z;\n}\n",
+        "php": "function rich_records($x, $y) {\n    $o = new stdClass();\n    $o->inner = new stdClass();\n    $o->inner->x = 1;\n    $o->count = 0;\n    $o->inner->x = $x;\n    $o->count = $o->count + 1;\n    $o->inner->x += $y;\n    $p = $o->inner;\n    $p->z = 5;\n    return $o->inner->x * 100 + $o->count * 10 + $o->inner->z;\n}\n",
+    },
+    "arrays": {
+        "python": "def rich_arrays(x, y):\n    l = [1, 2, 3]\n    l[1] = x\n    l[0] = l[1] + l[2]\n    l[2] += y\n    return l[0] * 100 + l[1] * 10 + l[2]\n",
+        "javascript": "function rich_arrays(x, y) {\n    var l = [1, 2, 3];\n    l[1] = x;\n    l[0] = l[1] + l[2];\n    l[2] += y;\n    return l[0] * 100 + l[1] * 10 + l[2];\n}\n",
+        "php": "function rich_arrays($x, $y) {\n    $l = [1, 2, 3];\n    $l[1] = $x;\n    $l[0] = $l[1] + $l[2];\n    $l[2] += $y;\n    return $l[0] * 100 + $l[1] * 10 + $l[2];\n}\n",
+        "java": "    static int rich_arrays(int x, int y) {\n        int[] l = {1, 2, 3};\n        l[1] = x;\n        l[0] = l[1] + l[2];\n        l[2] += y;\n        return l[0] * 100 + l[1] * 10 + l[2];\n    }\n",
+        "c": "int rich_arrays(int x, int y) {\n    int l[3] = {1, 2, 3};\n    l[1] = x;\n    l[0] = l[1] + l[2];\n    l[2] += y;\n    return l[0] * 100 + l[1] * 10 + l[2];\n}\n",
+    },
+    "args": {
+        "python": "def h3(a, b, c):\n    return a * 100 + b * 10 + c\ndef rich_args(x, y):\n    return h3(x, y, 7) + h3(7, x, y) * 1000\n",
+        "javascript": "function h3(a, b, c) {\n    return a * 100 + b * 10 + c;\n}\nfunction rich_args(x, y) {\n    return h3(x, y, 7) + h3(7, x, y) * 1000;\n}\n",
+        "php": "function h3($a, $b, $c) {\n    return $a * 100 + $b * 10 + $c;\n}\nfunction rich_args($x, $y) {\n    return h3($x, $y, 7) + h3(7, $x, $y) * 1000;\n}\n",
+        "java": "    static int h3(int a, int b, int c) {\n        return a * 100 + b * 10 + c;\n    }\n    static int rich_args(int x, int y) {\n        return h3(x, y, 7) + h3(7, x, y) * 1000;\n    }\n",
+        "c": "int h3(int a, int b, int c) {\n    return a * 100 + b * 10 + c;\n}\nint rich_args(int x, int y) {\n    return h3(x, y, 7) + h3(7, x, y) * 1000;\n}\n",
+    },
+}
+
+
+def run_mixed(batch):
+    """all languages in one invocation (-l a,b,c): each unit must lower exactly as in a single-language run"""
+    files = {"m." + EXT[l]: src for l, src in batch["sources"].items()}
+    r = runner.run_lian(files, ",".join(batch["sources"]), "lang", extra_args=["--nomock"])
+    if r.status != "ok":
+        return {"fatal": f"mixed-language lang phase {r.status}: {r.exc} {(r.traceback or '')[-300:]}"}
+    units = observe.unit_ids_by_path(r.lian)
+    res = []
+    for l in batch["sources"]:
+        fname = "m." + EXT[l]
+        rows = observe.gir_rows(r.lian, units[fname]) if fname in units else []
+        vm = girvm.VM(rows, l, step_budget=3000)
+        try:
+            vm.run_unit()
+        except Exception:
+            vm.module = girvm.Frame(vm, None, None, is_module=True)
+        methods = {}
+        for rr in rows:
+            if rr.get("operation") == "method_decl":
+                methods.setdefault(rr.get("name"), rr)
+        for name, expected in batch["expected"]:
+            mrow = methods.get(name)
+            if mrow is None:
+                res.append((l + ":" + name, "method-missing", None))
+                continue
+            vm.module.vars[name] = girvm.Closure(mrow, vm.module, vm)
+            for hn, hrow in methods.items():
+                if not hn.startswith(("entry_", "rich_")) and hn != "out":
+                    vm.module.vars.setdefault(hn, girvm.Closure(hrow, vm.module, vm))
+            n_ok, bad = 0, None
+            for args, exp in expected:
+                if exp is None:
+                    continue
+                vm.out, vm.steps, vm.trace, vm.uses, vm.defs, vm.calls = [], 0, [], [], [], []
+                del vm.activations[1:]
+                try:
+                    ret = ("ret", girvm.show(vm.call_entry(name, list(args))))
+                    got = (list(vm.out), ret)
+                except (girvm.VMRuntimeError, girvm.VMBudget, girvm.VMUnsupported) as e:
+                    got = (list(vm.out), ("err", type(e).__name__ + ":" + str(e)[:80]))
+                if got == exp:
+                    n_ok += 1
+                elif bad is None:
+                    bad = (args, exp, got)
+            res.append((l + ":" + name, "ok", (n_ok, bad)))
+    return {"fatal": None, "results": res, "unknown_ops": []}
+
 
 def run_batch(batch):
     lang = batch["lang"]
+    if lang == "mixed":
+        return run_mixed(batch)
     fname = "m." + EXT[lang]
     r = runner.run_lian({fname: batch["source"]}, lang, "lang", extra_args=["--nomock"])
     if r.status != "ok":
@@ -187,6 +266,9 @@ def run_batch(batch):
             res.append((name, "method-missing", None))
             continue
         vm.module.vars[name] = girvm.Closure(mrow, vm.module, vm)
+        for hn, hrow in methods.items():
+            if not hn.startswith(("entry_", "rich_")) and hn != "out":
+                vm.module.vars.setdefault(hn, girvm.Closure(hrow, vm.module, vm))
         bad = None
         n_ok = 0
         ops_used = set()
@@ -235,6 +317,33 @@ def main():
             chunk = list(range(k, min(k + BATCH, len(progs))))
             methods = [render(lang, f"entry_{i}", progs[i][0]) for i in chunk]
             batches.append({"lang": lang, "source": wrap(lang, methods), "expected": [(f"entry_{i}", ref[i]) for i in chunk], "idx": chunk})
+    # rich programs: reference from CPython on the Python text
+    rich_ref = {}
+    for fam, by in RICH.items():
+        env, outs, err = pyexec.load(by["python"])
+        exp = []
+        for args in INPUTS:
+            o, r = pyexec.call(env, outs, "rich_" + fam, args, budget=2000)
+            exp.append((args, None if r[0] in ("budget", "exc") else (o, r)))
+        rich_ref[fam] = exp
+    rich_index = {}
+    for lang in LANGS:
+        fams = [f for f in RICH if lang in RICH[f]]
+        if not fams:
+            continue
+        methods = [RICH[f][lang] for f in fams]
+        idxs = []
+        for f in fams:
+            progs.append((None, {"rich:" + f}, 1))
+            ref.append(rich_ref[f])
+            rich_index[len(progs) - 1] = f
+            idxs.append(len(progs) - 1)
+        batches.append({"lang": lang, "source": wrap(lang, methods), "expected": [("rich_" + rich_index[i], ref[i]) for i in idxs], "idx": idxs})
+    # one mixed-language project: every frontend in a single invocation must emit what it emits alone
+    mixed_chunk = list(range(0, min(40, len(progs) - len(rich_index))))
+    batches.append({"lang": "mixed", "idx": mixed_chunk,
+                    "sources": {l: wrap(l, [render(l, f"entry_{i}", progs[i][0]) for i in mixed_chunk]) for l in LANGS if l != "go"},
+                    "expected": [(f"entry_{i}", ref[i]) for i in mixed_chunk], "source": ""})
     stats = {"programs": len(progs), "evaluations": 0, "agree": 0, "by_lang": {}}
     tested = {}
     for idx, res in runner.fork_map(run_batch, [{k: v for k, v in b.items() if k != "idx"} for b in batches], cpu_limit=600):
@@ -247,12 +356,21 @@ def main():
         for op in res.get("unknown_ops", []):
             rep.violation(f"{lang}:operation-outside-vocabulary:{op}", f"the {lang} frontend emits `{op}`, which no def-use handler of the language-independent "
                           f"analyses knows", {"lang": lang, "op": op}, size=0, ident="")
-        for (name, status, info), i in zip(res["results"], b["idx"]):
+        if lang == "mixed":
+            entries = []
+            for (qname, status, info) in res["results"]:
+                l2, name = qname.split(":", 1)
+                entries.append((l2, name, status, info, int(name.split("_")[1])))
+        else:
+            entries = [(lang, name, status, info, i) for (name, status, info), i in zip(res["results"], b["idx"])]
+        for l2, name, status, info, i in entries:
             body, feats, size = progs[i]
+            tag = lang if lang != "mixed" else f"mixed-run:{l2}"
+            srcf = (lambda: RICH[rich_index[i]][l2]) if body is None else (lambda: render(l2, name, body))
             st["programs"] += 1
-            tested.setdefault(lang, []).append(set(feats))
+            tested.setdefault(tag, []).append(set(feats))
             if status != "ok":
-                rep.feature_violation(f"{lang}:{status}", set(feats), f"{status}: {render(lang, name, body)}", {"lang": lang, "source": render(lang, name, body)}, size=size, text=name)
+                rep.feature_violation(f"{tag}:{status}", set(feats), f"{status}: {srcf()}", {"lang": l2, "source": srcf()}, size=size, text=name)
                 continue
             n_ok, bad = info
             stats["evaluations"] += n_ok + (1 if bad else 0)
@@ -262,14 +380,15 @@ def main():
                 st["mismatching_programs"] += 1
                 args, exp, got = bad
                 kind = "unsupported" if got[1][0] == "unsupported" else "mismatch"
-                src = render(lang, name, body)
+                src = srcf()
                 control = set(feats) & {"if", "else", "while", "for", "break", "continue", "return"}
                 gfeats = control if control else set(feats)
                 if kind == "unsupported":
                     kind = "unsupported:" + got[1][1].replace(" ", "-")
                     gfeats = set()            # one finding per unsupported operation, not per program shape
-                rep.feature_violation(f"{lang}:{kind}", gfeats, f"input {args}: reference (CPython on the Python rendering) {exp}; GIR of the {lang} rendering -> {got}; "
-                                      f"program:\n{src}", {"lang": lang, "source": src, "python": render_py(name, body), "args": list(args)}, size=size * 1000 + len(src), text=src)
+                pytext = RICH[rich_index[i]]["python"] if body is None else render_py(name, body)
+                rep.feature_violation(f"{tag}:{kind}", gfeats, f"input {args}: reference (CPython on the Python rendering) {exp}; GIR of the {l2} rendering -> {got}; "
+                                      f"program:\n{src}", {"lang": l2, "source": src, "python": pytext, "args": list(args)}, size=size * 1000 + len(src), text=src)
     for lang, ts in tested.items():
         rep.feature_universe(f"{lang}:mismatch", ts)
         rep.feature_universe(f"{lang}:unsupported", ts)
@@ -278,7 +397,8 @@ def main():
         "evaluations": stats["evaluations"], "distinct_nontrivial": stats["programs"],
         "rule": f"every Core program with <= {3 if quick else 4} statement nodes (assign, binop, augassign, out, if/else, while, counted for, break, continue, "
                 "return) x 6 frontends x 9 input vectors; distinct by construction; non-trivial = the reference terminates normally on the input",
-        "samples": [{"python": render_py("entry_k", progs[i][0]), "java": render("java", "entry_k", progs[i][0])} for i in (5, len(progs) // 2)],
+        "samples": [{"python": render_py("entry_k", progs[i][0]), "java": render("java", "entry_k", progs[i][0])} for i in (5, 1000)] +
+                   [{"rich": f, "php": RICH[f].get("php")} for f in ("strings",)],
         "exhaustive": True, "agreeing_evaluations": stats["agree"], "by_language": stats["by_lang"],
     }, t.wall(), new, known=known, assumptions=[
         "reference semantics = CPython on the Python rendering (ints only, no division, so integer semantics agree across languages)",
